@@ -62,11 +62,10 @@ def cases(tier, seed):
                                             nmax=4, nmin=2, boxes=("none", "mixed", "lower"), starts=("interior", "face"))
             spec.update(K=int(rng.integers(20, 45)), maxls=int(gen.pick(rng, [1, 2, 2, 3])), long=True)
         yield spec
-    for i in range(48 if tier == "quick" else 1500):
-        # magnitudes: variables living on length scales from 1e-8 to 1e16 (a chained Rosenbrock valley in those units): the curvature
-        # memory spans dozens of decades, the factorisation of its middle matrix fails now and then and the memory is refreshed mid-run
-        ps = gen.rand_spec(rng, ("scaled_rosenbrock",), nmax=5, nmin=2, boxes=("none", "none", "lower"), starts=("interior",))
-        yield {"problem": ps, "maxcor": int(rng.integers(3, 8)), "maxls": 20, "K": int(rng.integers(16, 30)), "scaler": None, "multi_scale": True}
+    # (runs on variables of wildly different length scales are not put through the crash enumeration below: the compact representation
+    #  rebuilt by a restart and the one the live run has updated step by step then differ by rounding amplified by conditioning of 1e12
+    #  and more, 3e-3 in the next iterate on the unchanged tree; the restarts that ARE exact there - from a state without pairs, right
+    #  after a memory refresh - are the `refresh` kind)
     for i in range(400 if tier == "quick" else 12000):
         ps = gen.rand_spec(rng, ("scaled_rosenbrock",), nmax=6, nmin=2, boxes=("none", "none", "lower"), starts=("interior",))
         yield {"kind": "refresh", "problem": ps, "maxcor": int(rng.integers(3, 10)), "K": 40}
